@@ -129,6 +129,9 @@ func (fvc *FoodVouchers) Calculate() error {
 	fvc.Total = num.MakeAmount(0, FoodVouchersFinalPrecision)
 
 	for i, l := range fvc.Lines {
+		if l == nil {
+			return nullRowError("lines", i)
+		}
 		l.Index = i + 1
 		l.Amount = l.Amount.Rescale(FoodVouchersFinalPrecision)
 
